@@ -6,7 +6,9 @@
    The model is the model of the code WITH fixes/C13_*.patch applied:
      - the first-line search runs over the carried-over bytes plus the new read,
      - a chunked message is complete only when the whole last-chunk + trailer section has arrived,
-     - HTTP._on_read recognises Transfer-Encoding: chunked case-insensitively (like the parser).
+     - HTTP._on_read recognises Transfer-Encoding: chunked case-insensitively (like the parser),
+     - HTTP._on_response releases the request/response pair after a HEAD request,
+     - an empty header section is recognised by its leading CRLF whatever follows in the same read.
 
    Bytes are N.  Content parsing of the first line and of the header block is NOT modelled: it is
    the Section variables [parse_fl] and [parse_hd] (oracles).  What framing needs from them:
@@ -133,9 +135,12 @@ Fixpoint chunk_adv (fuel : nat) (fl blk body x : list N) : pstate :=
 
 (* header phase on the joined buffer x (= everything after the first line's CRLF) *)
 Definition heads (fl : list N) (is204 : bool) (x : list N) : pstate :=
-  if list_eqb x CRLF then
-    (* no header fields: _buf = [], _clen_rest stays None *)
-    if kind_resp && is204 then PDone fl [] [] else body_step fl [] None None [] []
+  if is_prefix CRLF x then
+    (* empty header section (repaired behaviour): everything after the empty line is body, delimited by the
+       end of the connection; _buf = [] iff nothing follows yet, which is what the 204 test looks at *)
+    let r := skipn 2 x in
+    if kind_resp && is204 && (match r with [] => true | _ => false end) then PDone fl [] []
+    else body_step fl [] None (Some maxsize) [] r
   else
     match split_on CRLF2 x with
     | None => PHead fl is204 x
